@@ -134,3 +134,36 @@ Theorem C08_minada_fn : forall c o,
   /\ (coin (o_val o) <> 0 -> min_lovelace c o = min_ada (cpb c) (out_size o)).
 Proof. exact min_lovelace_is_formula. Qed.
 Print Assumptions C08_minada_fn.
+
+(* What the utility answers for an output WITHOUT ADA (the way the builder asks for the minimum of every token change
+   bundle): the answer, put into that output (with_coin), passes the ledger's acceptance test
+   ledger_accepts cpb o = (cpb * (160 + |map form of o|) <= coin o) — for every address, bundle, datum, reference script
+   and per-byte price, as long as the answer needs at most 5 bytes like the 1 ADA that stood in for it (every
+   realistic parameter set; the premise is needed: C08_minada_zero_needs_premise). *)
+Theorem C08_minada_zero_accepted : forall c o, 0 <= cpb c -> coin (o_val o) = 0 -> min_lovelace c o < 4294967296 ->
+  ledger_accepts (cpb c) (with_coin o (min_lovelace c o)) = true.
+Proof. exact min_lovelace_sufficient. Qed.
+Print Assumptions C08_minada_zero_accepted.
+
+Lemma C08_minada_zero_needs_premise :
+  exists c o, 0 <= cpb c /\ coin (o_val o) = 0 /\ 4294967296 <= min_lovelace c o
+              /\ ledger_accepts (cpb c) (with_coin o (min_lovelace c o)) = false.
+Proof. exact min_lovelace_sufficient_needs_premise. Qed.
+Print Assumptions C08_minada_zero_needs_premise.
+
+(* Protocol parameter variants: of the parameters a chain context reports (pparams: coins_per_utxo_byte, max_val_size
+   and the legacy min_utxo / coins_per_utxo_word, which real backends fill with 1 ADA, the per-byte price, 34482, 0 or
+   nothing) the minimum ADA depends on coins_per_utxo_byte only, and change construction on coins_per_utxo_byte and
+   max_val_size only. (The model reads them through cfg_of; that the CODE does not read the others is what the
+   correspondence run checks, with these fields varied on every kind of case.) *)
+Theorem C08_minada_params : forall p q o, pp_cpb p = pp_cpb q -> min_lovelace_pp p o = min_lovelace_pp q o.
+Proof. exact min_lovelace_params. Qed.
+Print Assumptions C08_minada_params.
+
+Theorem C08_change_params : forall p q, pp_cpb p = pp_cpb q -> pp_mvs p = pp_mvs q ->
+  cfg_of p = cfg_of q
+  /\ (forall i, calc_change (cfg_of p) i = calc_change (cfg_of q) i)
+  /\ (forall a, add_change (cfg_of p) a = add_change (cfg_of q) a)
+  /\ (forall addr ch, pack_tokens (cfg_of p) addr ch = pack_tokens (cfg_of q) addr ch).
+Proof. exact change_params. Qed.
+Print Assumptions C08_change_params.
